@@ -1,5 +1,108 @@
-"""C09 — see DESIGN.md; shared machinery in scope_common.py"""
-import scope_common
+"""C09 — see DESIGN.md; shared machinery in scope_common.py.
+
+Besides the SL correspondence a verdict matrix covers the binders the SL language does not contain: builder (comprehension)
+variables, match-arm binders, lambda parameters, function parameters, handler variables, definitions inside branches and loops,
+names defined only later, and self fields read in a constructor before they are assigned.  Expected verdicts are read off the
+property statement: a read outside the binder's scope is rejected, a read inside it (or after a definition on all paths) is
+accepted."""
+import scope_common, sweep
+
+PRE = ("class E(def m: Str): Exception(m)\n"
+       "def g(v: Int) -> Int raise [E] => v\n"
+       "def l := [1, 2, 3]\ndef a := 2\n")
+# binder kind -> (construct in statement position, bound name, a use INSIDE the scope as a full construct or None)
+BINDERS = {
+    "list-builder-stmt": ("[bx * 2 | bx in l]", "bx"),
+    "list-builder-def": ("def m1 := [bx * 2 | bx in l]", "bx"),
+    "set-builder-def": ("def m1 := {bx | bx in l}", "bx"),
+    "dict-builder-def": ("def m1 := {bx => 1 | bx in l}", "bx"),
+    "builder-with-cond": ("def m1 := [bx | bx in l, bx > 1]", "bx"),
+    "nested-builder": ("def m1 := [[bx + by | bx in l] | by in l]", "bx"),
+    "nested-builder-outer": ("def m1 := [[bx + by | bx in l] | by in l]", "by"),
+    "builder-argument": ("print([bx * 2 | bx in l])", "bx"),
+    "builder-match-subject": ("match [bx * 2 | bx in l]\n    nn => print(1)", "bx"),
+    "builder-handle": ("[g(bx) | bx in l] handle\n    err: E => print(0)", "bx"),
+    "match-arm-stmt": ("match a\n    1 => print(1)\n    bx => print(bx)", "bx"),
+    "match-arm-def": ("def m1 := match a\n    1 => 1\n    bx => bx", "bx"),
+    "for-variable": ("for bx in l do print(bx)", "bx"),
+    "for-range-variable": ("for bx in 0 .. 3 do print(bx)", "bx"),
+    "function-parameter": ("def f1(bx: Int) -> Int => bx", "bx"),
+    "lambda-parameter": ("def h1 := \\bx: Int => bx + 1", "bx"),
+    "handler-variable": ("def r1 := g(1) handle\n    bx: E => 0", "bx"),
+    "if-branch-def": ("if a > 1 then\n    def bx := 1\n    print(bx)", "bx"),
+    "if-both-branches-def": ("if a > 1 then\n    def bx := 1\nelse\n    def bx := 2", "bx"),
+    "while-body-def": ("while a > 5 do\n    def bx := 1", "bx"),
+    "for-body-def": ("for i1 in l do\n    def bx := i1", "bx"),
+    "function-local": ("def f1() -> Int =>\n    def bx := 1\n    bx", "bx"),
+    "method-local": ("class K1\n    def m1(self) -> Int =>\n        def bx := 1\n        bx", "bx"),
+    "class-field-bare": ("class K1\n    def bx: Int := 1", "bx"),
+}
+USES = {
+    "next-statement": "print({n})",
+    "operand": "def u1 := {n} + 1",
+    "nested-if": "if a > 0 then\n    if a > 1 then\n        print({n})",
+    "in-loop": "for j1 in l do\n    print({n})",
+    "in-function": "def f9() -> Int => {n}",
+    "reassign": "{n} := 5",
+    "argument": "print(g({n}))",
+    "in-builder": "def m9 := [{n} + q9 | q9 in l]",
+}
+CONTEXTS = ["top", "function", "if", "method"]
+
+
+def ind(text, n):
+    return "".join("    " * n + l + "\n" for l in text.split("\n"))
+
+
+def place(ctx, body):
+    if ctx == "top":
+        return PRE + body
+    if ctx == "function":
+        return PRE + "def outer9() -> Int =>\n" + ind(body.rstrip("\n"), 1) + "    0\n"
+    if ctx == "if":
+        return PRE + "if a > 0 then\n" + ind(body.rstrip("\n"), 1)
+    if ctx == "method":
+        return PRE + "class Outer9\n    def mm9(self) -> Int =>\n" + ind(body.rstrip("\n"), 2) + "        0\n"
+    raise ValueError(ctx)
+
+
+def matrix():
+    out = []
+    for bk, (construct, name) in BINDERS.items():
+        for uk, use in USES.items():
+            for ctx in CONTEXTS:
+                if ctx in ("function", "method", "if") and construct.startswith(("class ", "def f1", "def h1")) and ctx != "if":
+                    continue          # nested class / function definitions inside bodies: keep to forms the language has
+                if ctx == "if" and construct.startswith("class "):
+                    continue
+                body = construct + "\n" + use.replace("{n}", name) + "\n"
+                out.append(("escape/%s/%s/%s" % (bk, uk, ctx), place(ctx, body), "reject"))
+        # control: the same use with a name that is defined before the construct is accepted
+        for ctx in CONTEXTS:
+            if construct.startswith(("class ", "def f1", "def h1")) and ctx != "top":
+                continue
+            body = "def ok9 := 4\n" + construct + "\nprint(ok9)\n"
+            out.append(("control/%s/%s" % (bk, ctx), place(ctx, body), "accept"))
+    # defined only later
+    for uk, use in USES.items():
+        if uk == "in-function":
+            continue
+        out.append(("later/%s/top" % uk, PRE + use.replace("{n}", "lt") + "\ndef lt := 1\n", "reject"))
+        out.append(("later/%s/function" % uk, place("function", use.replace("{n}", "lt") + "\ndef lt := 1\n"), "reject"))
+    out.append(("later/function-body-reads-later-global", PRE + "def f8() -> Int => lt\ndef lt := 1\nprint(f8())\n", "reject"))
+    out.append(("later/call-of-function-defined-later", PRE + "print(fl(1))\ndef fl(x: Int) -> Int => x\n", "reject"))
+    out.append(("later/instance-of-class-defined-later", PRE + "def o9 := Kl(1)\nclass Kl(def v: Int)\n", "reject"))
+    out.append(("later/function-body-calls-later-function", PRE + "def f8() -> Int => fl(1)\ndef fl(x: Int) -> Int => x\nprint(f8())\n", "accept"))
+    # shadowing gives later uses the new definition (type changes)
+    out.append(("shadow/new-type", PRE + "def s := 1\ndef s := \"t\"\nprint(s + \"u\")\n", "accept"))
+    out.append(("shadow/old-type-gone", PRE + "def s := 1\ndef s := \"t\"\ndef z := s - 1\n", "reject"))
+    # self fields in a constructor
+    out.append(("ctor/read-before-assign", "class C1\n    def f: Int\n    def g: Int\n    def __init__(self) =>\n        self.g := self.f + 1\n        self.f := 2\n", "reject"))
+    out.append(("ctor/read-after-assign", "class C1\n    def f: Int\n    def g: Int\n    def __init__(self) =>\n        self.f := 2\n        self.g := self.f + 1\n", "accept"))
+    out.append(("ctor/never-assigned", "class C1\n    def f: Int\n    def __init__(self) =>\n        print(1)\n", "reject"))
+    out.append(("ctor/assigned-in-one-branch", "class C1\n    def f: Int\n    def __init__(self, c: Bool) =>\n        if c then\n            self.f := 1\n", "reject"))
+    out.append(("ctor/assigned-in-both-branches", "class C1\n    def f: Int\n    def __init__(self, c: Bool) =>\n        if c then\n            self.f := 1\n        else\n            self.f := 2\n", "accept"))
+    return out
 
 
 def run(chk):
@@ -12,3 +115,37 @@ def run(chk):
     if not ok:
         return
     scope_common.run_scope(chk, ["use"], "Undefined", 60 if thorough else 14, 6 if thorough else 4)
+    cases = matrix()
+    if not thorough:
+        keep = [c for c in cases if "/next-statement/" in c[0] or not c[0].startswith("escape/")]
+        rest = [c for c in cases if c not in keep]
+        cases = keep + chk.rng.sample(rest, min(len(rest), 200))
+    res = sweep.transpile(chk, [c[1] for c in cases], annotate_both=False)
+    stats = {"accept_ok": 0, "reject_ok": 0, "rejected_for_another_reason": 0}
+    for (label, text, exp), r in zip(cases, res):
+        got = "accept" if r[0][0] == "ok" else ("reject" if r[0][0] == "err" else "crash")
+        why = None
+        if got == "crash":
+            why = "%s: the checker crashes" % label
+        elif exp == "reject" and got == "accept":
+            why = "%s: a read of a name that is not defined at that point is ACCEPTED" % label
+        elif exp == "accept" and got == "reject":
+            if scope_common.impl_class(r[0]) == "reject Undefined" or label.startswith(("ctor/", "shadow/")):
+                why = "%s: a use preceded by a definition on all paths is REJECTED: %s" % (label, " ".join(r[0][1][0].split())[:200])
+            else:
+                stats["rejected_for_another_reason"] += 1
+        else:
+            stats["accept_ok" if got == "accept" else "reject_ok"] += 1
+            if got == "reject" and label.startswith(("escape/", "later/")) and scope_common.impl_class(r[0]) != "reject Undefined":
+                stats["rejected_for_another_reason"] += 1
+        if why:
+            f = chk.known(label)
+            if f:
+                chk.report_known(f, why)
+            elif len(chk.violations) < 5:
+                chk.violation("input", why, case={"kind": "prog", "label": label, "text": text}, expected=exp, actual=str(r[0])[:600])
+    chk.cov["oracle"]["matrix"] = {"spec": "binder kind (builder variables, match-arm binders, for variables, parameters, lambda parameters, handler variables, branch/loop/function/method locals, class fields) x use form x context: a read outside the scope is rejected; names defined later; shadowing with another type; self fields in constructors",
+                                   "cases": len(cases), "stats": stats}
+    chk.cov["evaluations"] += len(cases)
+    chk.cov["distinct_nontrivial"] += len(cases)
+    chk.cov["rule"] += "; + verdict matrix over binder kinds x use forms x contexts (top, function, if, method)"
